@@ -1,8 +1,9 @@
 """C07 -- frames that are not accepted change nothing (2-safety / non-interference)."""
-from .. import core, machist, macstage, lw
+from .. import adevhist, ndevhist, core, machist, macstage, lw
 
 ID = "C07"
-THEOREMS = ["C07_reject_is_identity", "C07_oversized_only_ends_the_window", "C07_invalid_join_accept_is_identity"]
+THEOREMS = ["C07_reject_is_identity", "C07_oversized_only_ends_the_window", "C07_invalid_join_accept_is_identity",
+            "C07_async_window_rejected_frame_is_timeout", "C07_async_rxc_rejected_frame_is_skipped", "C07_nb_rejected_frame_keeps_the_window_open"]
 
 
 def rejected_frame(rng, net, kept):
@@ -86,6 +87,75 @@ def twin_pair(rng, region, length, classc):
     return net.head + " | " + " | ".join(base), net.head + " | " + " | ".join(twin), pos
 
 
+def frontend_twins(rng, tier):
+    """front-end twins: (base line, twin line) -- the twin hears a frame rejected by construction where the base hears nothing
+    (async: script event T; nb_device: the radio answers `rxing`); every output must be identical"""
+    out = []
+    nwk, app, addr = adevhist.NWK, adevhist.APP, adevhist.ADDR
+    for i in range(120 if tier == "quick" else 1500):
+        r = rng.fork("fe%d" % i)
+        region = r.choice([5, 8, 0, 4, 6, 7, 1])
+        down = [0]
+
+        def rejected():
+            k = r.below(4)
+            if k == 0:
+                return r.bytes(r.range(1, 40))
+            if k == 1:      # another session
+                return lw.data_frame(3, addr, 0, down[0] + 1, b"", 7, b"zz", r.bytes(16), app)
+            if k == 2:      # MIC bit flip of a fresh authentic frame carrying MAC commands
+                f = bytearray(lw.data_frame(3, addr, 2, down[0] + 1, bytes([0x08, 3]), None, b"", nwk, app))
+                f[-1 - r.below(4)] ^= 1 << r.below(8)
+                return bytes(f)
+            # (a frame bearing another DevAddr but authentic under THIS session's NwkSKey is not in this list: C05 defines acceptance by
+            #  size + MIC + freshness, the MIC covers the frame's own address, and code, model and reference all accept such a frame)
+            # replay of the last accepted frame (only once something has been accepted; otherwise junk)
+            return down[1] if len(down) > 1 else bytes([0xE0]) + r.bytes(11)
+        sess = "session=%s:%s:%d:%d" % (nwk.hex(), app.hex(), addr, r.choice([0, 3, 0xFFFE]))
+        if i % 2 == 0:
+            base, twin = [], []
+            for _ in range(r.range(2, 5)):
+                evb, evt = [], []
+                for _w in range(2):
+                    k = r.below(4)
+                    if k == 0:
+                        evb.append("T"); evt.append("T")
+                    elif k == 1:
+                        down[0] += 1
+                        # sticky answer / owed ACK to lose: RXTimingSetupReq in a confirmed downlink
+                        g = lw.data_frame(r.choice([3, 5]), addr, 2, down[0], bytes([0x08, r.below(16)]), None, b"", nwk, app)
+                        down[1:] = [g]
+                        evb.append("X" + g.hex()); evt.append("X" + g.hex())
+                        break
+                    else:
+                        evb.append("T"); evt.append("X" + rejected().hex())
+                op = "send %s %d %d %s " % (r.hex(r.below(5)), r.range(1, 223), r.below(2), machist.draws(r, 40))
+                base.append(op + ",".join(evb)); twin.append(op + ",".join(evt))
+            head = "adev r=%d lead=%d classc=0 fault=- bias=- %s | " % (region, r.choice([0, 15, 100]), sess)
+            out.append((head + " | ".join(base + ["fcnt"]), head + " | ".join(twin + ["fcnt"])))
+        else:
+            base, twin = [], []
+            for _ in range(r.range(2, 5)):
+                op = "send %s %d %d %s txdone" % (r.hex(r.below(5)), r.range(1, 223), r.below(2), machist.draws(r, 40))
+                base += [op, "timeout"]; twin += [op, "timeout"]
+                k = r.below(4)
+                if k == 0:      # a rejected frame in RX1, then a good one
+                    down[0] += 1
+                    g = lw.data_frame(r.choice([3, 5]), addr, 2, down[0], bytes([0x08, r.below(16)]), None, b"", nwk, app)
+                    base += ["phy rxing", "phy rx" + g.hex()]
+                    twin += ["phy rx" + rejected().hex(), "phy rx" + g.hex()]
+                    down[1:] = [g]
+                elif k == 1:    # rejected frames in RX1 and RX2
+                    base += ["phy rxing", "timeout", "timeout", "phy rxing", "timeout"]
+                    twin += ["phy rx" + rejected().hex(), "timeout", "timeout", "phy rx" + rejected().hex(), "timeout"]
+                else:
+                    base += ["timeout", "timeout", "phy rxing", "phy rxing", "timeout"]
+                    twin += ["timeout", "timeout", "phy rx" + rejected().hex(), "phy rx" + rejected().hex(), "timeout"]
+            head = "ndev r=%d fault=- bias=- %s | " % (region, sess)
+            out.append((head + " | ".join(base), head + " | ".join(twin)))
+    return out
+
+
 def run(rep, tier, rng):
     core.proof_stage(rep, ID, THEOREMS)
     if not core.build_both(rep):
@@ -119,6 +189,23 @@ def run(rep, tier, rng):
                 if bad <= 3:
                     rep.violation({"kind": "a frame the reference rejects was not reported as 'no update'", "case": t, "op": o[:200], "output": ot[p2][:200]}, concrete=True)
                 break
+    # the front-ends: both are modelled (the C07_async_* / C07_nb_* theorems speak of the code through this correspondence) ...
+    fe = adevhist.histories(rng.fork("adev"), tier, 300 if tier == "quick" else 3000) + ndevhist.histories(rng.fork("ndev"), tier, 300 if tier == "quick" else 3000)
+    ft = frontend_twins(rng.fork("fetwins"), tier)
+    core.diff_stage(rep, "X:C07:front-ends", fe + [b for b, _ in ft] + [t for _, t in ft], lambda c, i, m: None)
+    # ... and twin runs through the real front-ends: a rejected frame in a window = nothing heard in that window
+    io2 = core.run_lines(core.harness_bin(), [b for b, _ in ft] + [t for _, t in ft])
+    for i, (b, t) in enumerate(ft):
+        x, y = io2[i], io2[len(ft) + i]
+        if x != y:
+            bad += 1
+            if bad <= 3:
+                xs, ys = x.split(" ; "), y.split(" ; ")
+                k = next((j for j in range(min(len(xs), len(ys))) if xs[j] != ys[j]), min(len(xs), len(ys)))
+                rep.violation({"kind": "front-end twins diverge: a frame the reference rejects, heard in a receive window, changed what the device does afterwards",
+                               "base_history": b, "case": t, "at_op": k, "base_output": (xs[k] if k < len(xs) else "<missing>")[:600],
+                               "twin_output": (ys[k] if k < len(ys) else "<missing>")[:600]}, concrete=True)
+    rep.cov["frontend_twin_pairs"] = len(ft)
     rep.cov["twin_pairs"] = n
     rep.cov["rejected_frames_inserted"] = inserted
     rep.cov["rule"] = ("pairs of MAC histories that differ only by frames the reference codec rejects by construction (random/short/bad-version bytes, replays of accepted "
